@@ -37,6 +37,14 @@ def staysWith (o : Order) (r : MatchOut) (v h hr : Nat) : Bool :=
 
 def leaves (r : MatchOut) : Bool := r.updated.isNone && r.hiddenRed == 0
 
+/-- C05 (tranche helper): what `refresh_iceberg o n` must return — the identity and the type
+    parameters stay, the display becomes `n`, the amount used is `min hidden n`, and it is exactly
+    what left the hidden quantity; the five plain variants come back unchanged with 0 used. -/
+def C05.refreshOk (o : Order) (n : Nat) (r : Order) (used : Nat) : Bool :=
+  if o.kind.hasHidden then
+    o.sameIdentity r && r.vis == n && used == min o.hid n && r.hid + used == o.hid
+  else r == o && used == 0
+
 /-- C05: what `match_against o q` must return, read off the property statement. -/
 def C05.ok (o : Order) (q : Nat) (r : MatchOut) : Bool :=
   let consumed := min q o.vis
